@@ -131,41 +131,52 @@ Fixpoint check_batches (cf : N -> bcfg) (p : list (N * list citem)) (obs : list 
 Definition taint (refs : list (nat * (N * bool))) (f : N -> bool) : list (nat * (N * bool)) :=
   map (fun r => (fst r, (fst (snd r), snd (snd r) || f (fst (snd r))))) refs.
 
-Fixpoint o_run (cf : N -> bcfg) (refs : list (nat * (N * bool))) (p : list (N * list citem))
+(* delivery obligations (nothing may be lost): a channel whose held items reach MaxSize must have been
+   flushed by the call that added the last one; an end WITH flush must leave nothing pending *)
+Definition size_ok (cf : N -> bcfg) (p : list (N * list citem)) (ch : N) : bool :=
+  negb ((0 <? b_max (cf ch))%Z && (b_max (cf ch) <=? Z.of_nat (held_count (b_latest (cf ch)) (pend_of p ch)))%Z).
+Definition none_pending (cf : N -> bcfg) (p : list (N * list citem)) (ch : N) : bool :=
+  match flush_spec (b_latest (cf ch)) (pend_of p ch) with [] => true | _ => false end.
+
+Fixpoint o_run (cf : N -> bcfg) (closed : bool) (refs : list (nat * (N * bool))) (p : list (N * list citem))
                (evs : list (cev * list (N * list citem))) : bool :=
   match evs with
   | [] => true
   | (e, obs) :: evs' =>
       match e with
-      | EGet t ch => (match obs with [] => true | _ => false end) && o_run cf ((t, (ch, false)) :: refs) p evs'
+      | EGet t ch => (match obs with [] => true | _ => false end) &&
+                     (* after Close the connection is gone: whatever is added later may be dropped *)
+                     o_run cf closed ((t, (ch, closed)) :: refs) p evs'
       | EAdd t x =>
           match lookup refs t with
           | Some (ch, tainted) =>
               (* the item is added to the channel now; a flush during the call includes it *)
               (match check_batches cf (upd_pend p ch (pend_of p ch ++ [x])) obs with
-               | Some p' => o_run cf (remove_k refs t) p' evs'
+               | Some p' => size_ok cf p' ch && o_run cf closed (remove_k refs t) p' evs'
                | None => false
                end)
-              || (tainted && (match obs with [] => true | _ => false end) && o_run cf (remove_k refs t) p evs')
+              || (tainted && (match obs with [] => true | _ => false end) && o_run cf closed (remove_k refs t) p evs')
           | None => false
           end
       | EFire _ =>
-          match check_batches cf p obs with Some p' => o_run cf refs p' evs' | None => false end
+          match check_batches cf p obs with Some p' => o_run cf closed refs p' evs' | None => false end
       | EDel ch f =>
-          (* with flush: what is delivered now must be the pending items; in both cases nothing that
-             was pending before the end may be delivered later *)
+          (* with flush: what is delivered now must be the pending items, all of them; in both cases
+             nothing that was pending before the end may be delivered later *)
           match (if f then check_batches cf p obs else match obs with [] => Some p | _ => None end) with
-          | Some p' => o_run cf (taint refs (N.eqb ch)) (upd_pend p' ch []) evs'
+          | Some p' => (negb f || none_pending cf p' ch) &&
+                       o_run cf closed (taint refs (N.eqb ch)) (upd_pend p' ch []) evs'
           | None => false
           end
       | EClose f =>
           match (if f then check_batches cf p obs else match obs with [] => Some p | _ => None end) with
-          | Some _ => o_run cf (taint refs (fun _ => true)) [] evs'
+          | Some p' => (negb f || forallb (fun e => none_pending cf p' (fst e)) p') &&
+                       o_run cf true (taint refs (fun _ => true)) [] evs'
           | None => false
           end
       end
   end.
 
-Definition oracle (c : case) : bool := o_run (cfg_of (c_cfg c)) [] [] (c_evs c).
+Definition oracle (c : case) : bool := o_run (cfg_of (c_cfg c)) false [] [] (c_evs c).
 
 Definition run (cs : list case) := failing corr oracle cs.
